@@ -9,17 +9,18 @@ genparams = cc.genparams
 
 MANIFEST = dict(
     engine="cron",
-    technique="Coq proof over ALL zone tables with bounded offsets (soundness on the local wall clock, termination); "
-              "completeness near transitions decided by a per-second wall-clock oracle on real IANA zones, with the "
-              "extracted model fed Go's own transition tables",
+    technique="Coq proof over ALL zone tables with bounded offsets and spaced transitions (soundness on the local wall clock, "
+              "termination, and completeness up to repeated local times: exactness of firstAfter + loop invariant); extracted "
+              "model fed Go's own transition tables and a per-second wall-clock oracle on real IANA zones",
     text="Machine-checked for every zone table with offsets within +-26h and transitions more than 52h apart, every well-formed "
          "expression and every prev: a returned instant is strictly after prev and its LOCAL wall clock reading satisfies the "
-         "expression (nothing is fired early or on a reading that does not match), and the call always terminates with a value or "
-         "expiry; a table without transitions reduces to the fixed-offset theorems of C02. The completeness half (nothing but the "
-         "later occurrence of a repeated local time is skipped; no false expiry) is NOT proved -- partial -- and is decided per run by "
-         "a per-second wall-clock scan around transitions of real IANA locations (gaps, repeated hours, 30/45-minute shifts, Lord "
-         "Howe, Apia's skipped day, Casablanca), with prev placed before/inside/after gaps and both passes of repeated hours; the "
-         "extracted model, fed the transition tables Go reports through ZoneBounds, must agree with the real trigger on every case.",
+         "expression (nothing fired early or on a non-matching reading); the call always terminates; a matching instant after prev "
+         "that is not the later occurrence of a local time repeated by a fall-back is never passed over, hence only such repeats are "
+         "skipped and expiry is never reported while another matching local time remains (gap times have no instant and are not "
+         "fired); a table without transitions reduces to the fixed-offset theorems of C02. The tie to the code: the extracted model is "
+         "fed the transition tables Go reports through ZoneBounds (each must satisfy wf_zone) and must agree with the real trigger on "
+         "expressions and prevs placed before/inside/after gaps and both passes of repeated hours of real IANA locations (30/45-minute "
+         "shifts, Lord Howe, Apia's skipped day, Casablanca); independently a per-second wall-clock scan checks every result.",
     design_ref="6 C14")
 
 
@@ -67,7 +68,6 @@ def run(ctx):
         "placement_histogram": cc.placement_hist(cases),
         "zones": len(zones), "zones_outside_wf_zone": not_wf,
         "model_mismatches": len(mism), "oracle_failures": len(failures),
-        "partial": "nft_zone_complete (only repeats are skipped, no false expiry) is not proved; decided by the oracle on this run's cases",
     })
     vlib.write_evidence(ctx, cov, assumptions=[
         "zone tables are read from Go (ZoneBounds) at run time and satisfy wf_zone (checked by the driver; exceptions listed in zones_outside_wf_zone are compared with the oracle only)",
